@@ -275,6 +275,16 @@ def run(kind, frags, record=True):
 			err = 'escape:%s' % type(exc).__name__
 			calls.append({'err': err, 'msg': str(exc)[:120]})
 			break
+		# read-only observers between the calls (they must not change what the machine does next)
+		try:
+			repr(sm); len(sm.buffer); bool(sm.message); dict(getattr(sm, 'state', {}) or {})
+			for m in out:
+				mm = m[0] if isinstance(m, tuple) else m
+				repr(mm); repr(mm.headers); bool(mm.body); len(mm.body); repr(getattr(mm, 'status', None))
+		except Exception as exc:
+			err = 'escape:observer:%s' % type(exc).__name__
+			calls.append({'err': err, 'msg': str(exc)[:120]})
+			break
 		calls.append({'msgs': [msg_obs(m, kind) for m in out]})
 	o = {'calls': calls}
 	if err is None:
